@@ -51,6 +51,10 @@ def cases(tier, seed):
         for opts in (False, True):
             for dt in (None, "float64") if tier == "quick" else (None, "float32", "float64"):
                 flows.append({"kind": "flow", "backend": backend, "opts": opts, "dtype": dt})
+    # process-wide state: the writer runs under torch.set_default_dtype(float64) (common in scientific torch code), the
+    # reader under the stock default - a flow built with dtype=None must come back with the precision it really had
+    flows.append({"kind": "flow", "backend": "zuko", "opts": True, "dtype": None, "torch_default": "float64"})
+    flows.append({"kind": "flow", "backend": "zuko", "opts": False, "dtype": "float32", "torch_default": "float64"})
     for k, f in enumerate(flows):
         f["seed"] = [seed, 133, k]
         out.append(f)
@@ -396,16 +400,31 @@ def flow_case(case, counters, viol, nontrivial):
             kw = dict(flow_layers=2, nn_width=8)
         kw["key"] = jax.random.key(int(g.integers(1000)))
         fit_kw = dict(max_epochs=2, batch_size=64, show_progress=False)
-    flow = F(dims=2, data_transform=tr, dtype=dt, **kw)
-    x = np.column_stack([np.clip(g.normal(0, 1.5, 200), -4.9, 4.9), np.clip(g.normal(3, 2, 200), -2.9, 8.9)])
-    flow.fit(x, **fit_kw)
+    td = case.get("torch_default")
+    if td:
+        import torch
+
+        torch.set_default_dtype(getattr(torch, td))
+        counters["flows_written_under_another_torch_default"] += 1
+    try:
+        if td:
+            tr = FlowTransform(parameters=params, prior_bounds=pb, bounded_to_unbounded=tr.bounded_to_unbounded if hasattr(tr, "bounded_to_unbounded") else True, bounded_transform="logit", xp=fxp, dtype=dt)
+        flow = F(dims=2, data_transform=tr, dtype=dt, **kw)
+        x = np.column_stack([np.clip(g.normal(0, 1.5, 200), -4.9, 4.9), np.clip(g.normal(3, 2, 200), -2.9, 8.9)])
+        flow.fit(x, **fit_kw)
+    except BaseException:
+        if td:
+            torch.set_default_dtype(torch.float32)
+        raise
     path = tmpfile("f.h5")
-    where = f"{backend} extra-options={opts} dtype={dt}"
+    where = f"{backend} extra-options={opts} dtype={dt}" + (f" written under torch default {td}, read under float32" if td else "")
     try:
         counters["flow_roundtrips"] += 1
         try:
             with h5py.File(path, "w") as f:
                 flow.save(f, path="flow")
+            if td:
+                torch.set_default_dtype(torch.float32)
             with h5py.File(path, "r") as f:
                 flow2 = F.load(f, path="flow")
         except Exception as exc:  # noqa: BLE001
@@ -451,6 +470,8 @@ def flow_case(case, counters, viol, nontrivial):
         nontrivial.add(f"flow|{backend}|{opts}|{dt}")
     finally:
         rm_tmp(path)
+        if td:
+            torch.set_default_dtype(torch.float32)
 
 
 # ------------------------------------------------------------------ configuration
